@@ -33,8 +33,14 @@ func vf34Creds(values []string) map[string]any {
 	for _, v := range values {
 		req.Header.Add("Authorization", v)
 	}
-	c := Credentials(req)
-	return map[string]any{"user": c.User, "pass": c.Pass, "token": c.Token}
+	res := map[string]any{"user": "", "pass": "", "token": ""}
+	if panicked, _ := verifrt.Catch(func() {
+		c := Credentials(req)
+		res = map[string]any{"user": c.User, "pass": c.Pass, "token": c.Token}
+	}); panicked {
+		res["panic"] = true
+	}
+	return res
 }
 
 // spec -> impl: every header list of the bounded model.
